@@ -289,6 +289,25 @@ theorem exec_inv {c : FxVerif.Gen.C11.Cfg} (hg : good c = true) {s s' : State} {
     · split
       · exact hi w
       · exact hi w
+  | mature =>
+    simp only [State.exec] at h
+    cases h
+    refine ⟨fun w => ?_, rfl⟩
+    show SumInv s.nAcc (if (s.vs w).bonded then (s.vs w).endBlock s.height else ((s.vs w).endBlock s.height).matureVal)
+    have e : ∀ v : VS, SF v (v.endBlock s.height) := by
+      intro v
+      unfold VS.endBlock
+      dsimp only
+      split
+      · exact ⟨rfl, rfl, rfl⟩
+      · split <;> exact ⟨rfl, rfl, rfl⟩
+    have m : ∀ v : VS, SF v v.matureVal := by
+      intro v
+      unfold VS.matureVal
+      split <;> exact ⟨rfl, rfl, rfl⟩
+    split
+    · exact SumInv_of_SF (e _) (hi w)
+    · exact SumInv_of_SF ((e _).trans (m _)) (hi w)
   | jail v =>
     simp only [State.exec] at h
     split at h
@@ -699,7 +718,7 @@ theorem pool_invariant (nAcc h0 : Nat) (vals : List (Nat × Nat)) (ops : List Op
     ((init nAcc h0 vals).run cfg ops).notBondedPool =
       sumTo ((init nAcc h0 vals).run cfg ops).nVal (fun w =>
         if (((init nAcc h0 vals).run cfg ops).vs w).bonded then 0 else (((init nAcc h0 vals).run cfg ops).vs w).tokens) +
-      ubdSum ((init nAcc h0 vals).run cfg ops).ubd := by
+      ubdTotal ((init nAcc h0 vals).run cfg ops).ubd := by
   have hi := run_BInv cfg_good ops _ (init_BInv nAcc h0 vals)
   exact ⟨hi.bonded, hi.notBonded⟩
 
@@ -842,7 +861,7 @@ example : demo.bondedPool = 0 ∧ demo.notBondedPool = 1400 ∧ demo.burned = 10
 example :
     let s := (init 4 1 [(200000000000000000000, 0), (5000, 0)]).run cfg
       [.delegate 2 0 700, .delegate 3 1 300, .block, .undelegate 2 0 100, .redelegate 2 0 1 50, .slash 0 1 100000000000000000]
-    s.bondedPool = 190000000000000000550 ∧ s.notBondedPool = 5450 ∧ ubdSum s.ubd = 100 ∧ (s.vs 0).bonded = true ∧
+    s.bondedPool = 190000000000000000550 ∧ s.notBondedPool = 5450 ∧ ubdTotal s.ubd = 100 ∧ (s.vs 0).bonded = true ∧
     (s.vs 1).bonded = false ∧ s.burned = 10000000000000000000 := by decide
 -- a transfer that pays both parties (hypothesis of transfer_leaves_chain_unchanged)
 example : isOk (((init 4 1 [(1000, 0)]).run cfg [.delegate 1 0 500, .delegate 2 0 300, .alloc 0 77, .block]).exec cfg
